@@ -405,9 +405,13 @@ class UCSReplication(MessagePassingComputation):
         pending = set(unknown)
 
         def _on_neighbor(_evt, computation, _agent):
-            pending.discard(computation)
-            if not pending:
-                action()
+            # The callback may be fired again for a computation (it is
+            # registered again before the one-shot callbacks are discarded):
+            # `action` must only be called once.
+            if computation in pending:
+                pending.discard(computation)
+                if not pending:
+                    action()
 
         for neighbor_name in unknown:
             self.discovery.subscribe_computation(
